@@ -151,7 +151,10 @@ impl<W: 'static, R: 'static, T: 'static> XSequence<W, R, T> {
                     .collect::<Result<Result<Vec<_>, _>, _>>()?);
                 ManagedXValue::new(XValue::StructInstance(items), rt).map(Ok)
             }
-            Self::Slice(seq, start, ..) => to_native!(seq, Self).get(idx + start, ns, rt),
+            Self::Slice(seq, start, ..) => match idx.checked_add(*start) {
+                Some(inner_idx) => to_native!(seq, Self).get(inner_idx, ns, rt),
+                None => Ok(Err(ManagedXError::new("index too large", rt)?)),
+            },
             Self::Count => ManagedXValue::new(XValue::Int(idx.into()), rt).map(Ok),
             Self::Chain {
                 parts,
@@ -210,11 +213,17 @@ impl<W: 'static, R: 'static, T: 'static> XSequence<W, R, T> {
             return Some(Self::Empty);
         }
         Some(match self_ {
-            Self::Slice(origin, old_start, ..) => Self::Slice(
-                origin.clone(),
-                old_start + start,
-                end.map(|end| old_start + end),
-            ),
+            // slices of slices are merged unless the merged offsets leave the index range
+            Self::Slice(origin, old_start, ..)
+                if old_start.checked_add(start).is_some()
+                    && end.map_or(true, |end| old_start.checked_add(end).is_some()) =>
+            {
+                Self::Slice(
+                    origin.clone(),
+                    old_start + start,
+                    end.map(|end| old_start + end),
+                )
+            }
             _ => Self::Slice(base.clone(), start, end),
         })
     }
@@ -238,6 +247,19 @@ impl<W: 'static, R: 'static, T: 'static> XSequence<W, R, T> {
         let Some(len0) = seq0.len() else { return Err("first sequence is infinite"); };
         if seq1.len().map_or(false, |len1| len0.checked_add(len1).is_none()) {
             return Err("sequences are too long to be concatenated");
+        }
+        // the midpoints of an infinite second operand are shifted like any other
+        if let Self::Chain {
+            midpoint_lengths: mid_lengths1,
+            ..
+        } = seq1
+        {
+            if mid_lengths1
+                .iter()
+                .any(|len| len.checked_add(len0).is_none())
+            {
+                return Err("sequences are too long to be concatenated");
+            }
         }
         let (parts, midpoint_lengths) = match (seq0, seq1) {
             (
